@@ -107,4 +107,14 @@ CHECKS["C07"] = {
             "dpkt_dsb.py by ast) composed with dpkt's writer returns the same microsecond tick for every tick below 2^51.",
     "note": TRUST + "Models as in C01/C02; capture times are opaque integers inside the pipeline; the float lemma uses |relative error| <= 2^-53 per operation and claims nothing at or above 2^51 microseconds.",
 }
+CHECKS["C06"] = {
+    "technique": "symbolic execution of OutputBuilder on records of symbolic length (abstract byte strings; floor(n/k) justified by a cvc5-proved floating-point lemma), of main.run's writer loop with stub reader/writer, plus strict independent reading of sampled real outputs",
+    "text": "For records of every length below 2^15+2^11 carried by 1..K input packets in any directions, z3 shows that the export "
+            "opens with SYN / SYN-ACK / ACK stamped with the first record's time, that each record is re-split into at most k "
+            "contiguous parts that cover it exactly, that sequence numbers are gap-free and non-overlapping per direction and every "
+            "acknowledgement equals the peer's bytes so far. The writer loop is shown to receive only complete Ether/IP/TCP-or-UDP "
+            "frames with a capture time for decryptable and undecryptable input. Sampled real outputs are parsed by an independent "
+            "strict pcapng reader that verifies block structure, length fields, checksums and TCP reassembly.",
+    "note": TRUST + "Byte-level serialisation and checksums are produced by scapy/dpkt and are checked only on the concrete samples (not decided symbolically). Lemma L1 is discharged by cvc5 on every run for each divisor used.",
+}
 NOT_APPLICABLE = {}
